@@ -429,6 +429,8 @@ def c20_tree(prop, key, index, tier):
                         list(s_.exit_jobs())
                     if s_.jobs and rng.random() < 0.3:
                         s_.successors_downstream(next(iter(s_.jobs)))
+        except ValueError:
+            pass                                        # judged on the final export, below
         except BaseException as exc:                    # noqa
             out.violation('dot-raised', "while querying the complete tree: %r" % (exc,))
         for _ in range(rng.randint(1, 3)):
